@@ -242,8 +242,34 @@ KNOWN = {'K7a': 'a permission error outside write_atomic (backup copy, remove_fi
          'K7b': 'rollback ignores remove_file errors: it exits 0 and records rollback_delete although the file is still there',
          'K7c': 're-running deploy after an interruption between the file writes and the manifest writes takes the no-change shortcut and never rewrites the stale manifests'}
 
-def rollback_faults(ctx, nscen, kinds):
-    """rollback under faults (oracle only): old-or-new, non-zero exit, re-run reaches the uninterrupted result"""
+def snapshot_term(sb, sid, ids, base, with_manifests):
+    """Coq term (SN ...) of a real snapshot record: managed files and (optionally) the manifests it wrote, read from state/"""
+    d = os.path.join(sb.aphome, 'state', 'snapshots')
+    v = json.load(open(os.path.join(d, sid + '.json')))
+    managed = [cq.cpair(cq.cstr(f['target']), cq.cstr(f['path'][len(base):]), cq.cN(ids.of_sha(f['sha256']))) for f in v.get('managed_files', [])]
+    mans = []
+    if with_manifests:
+        for c in v.get('changes', []):
+            if ds.is_manifest_name(os.path.basename(c['path'])) and c['op'] in ('create', 'update'):
+                safe = ''.join(ch if (ch.isascii() and ch.isalnum()) or ch in '-_' else '_' for ch in c['target'])
+                sp = os.path.join(d, sid, 'state', safe, hashlib.sha256(c['path'].encode()).hexdigest()[:16])
+                if os.path.exists(sp):
+                    rel = c['path'][len(base):]
+                    mans.append(cq.cpair(cq.cstr(c['target']), cq.cstr(rel), ds.c_fobj(ds.fobj_of(rel, open(sp, 'rb').read(), ids))))
+    return '(SN %s %s)' % (cq.clist(managed), cq.clist(mans)), v
+
+def head_of(sb):
+    head = None
+    for sid in ds.list_snapshot_ids(sb):
+        v = ds.load_snapshot(sb, sid)
+        k = v.get('kind', 'deploy')
+        if k in ('deploy', 'bootstrap'): head = sid
+        elif k == 'rollback' and v.get('rolled_back_to'): head = v['rolled_back_to']
+    return head
+
+def rollback_faults(ctx, nscen, kinds, cases):
+    """rollback under faults: trace and abort prefixes go to Coq (steps_of_rollback); oracle: old-or-new, non-zero exit,
+    re-run reaches the uninterrupted result"""
     rng = ctx.rng
     for idx in range(nscen):
         sb = Sandbox('c07r'); sb.git_init_project()
@@ -254,17 +280,26 @@ def rollback_faults(ctx, nscen, kinds):
             cw.write(); base = sb.root
             rc, d1, _, _ = sb.cli_json(['deploy', '--apply', '--yes', '--adopt'])
             for _ in range(3): cw.edit_config()
+            if rng.random() < 0.6: cw.add_prompt()
             cw.write()
             rc, d2, _, _ = sb.cli_json(['deploy', '--apply', '--yes', '--adopt'])
             if not (d1 and d1.get('ok') and d1['data'].get('applied') and d2 and d2.get('ok') and d2['data'].get('applied')):
                 continue
+            if rng.random() < 0.5:
+                ds.user_edit(rng, cw, manifests=False)
             S = d1['data']['snapshot_id']
+            ids = ds.Ids()
             saved = save_world(sb); before = ds.world_tree(sb)
+            tgt_term, tgt_json = snapshot_term(sb, S, ids, base, True)
+            cur_term, cur_json = snapshot_term(sb, head_of(sb), ids, base, False)
             tr = os.path.join(sb.canary, 'trace.txt')
             rc, doc, out, err = sb.cli_json(['rollback', '--to', S, '--yes'], extra_env={'AGENTPACK_VERIF_TRACE': tr})
             lines = read_trace(tr); final = ds.world_tree(sb)
             if not (doc and doc.get('ok')): continue
-            ids = ds.Ids()
+            cands = [f['path'] for f in tgt_json.get('managed_files', [])] + [f['path'] for f in cur_json.get('managed_files', [])] + \
+                    [c['path'] for c in tgt_json.get('changes', [])]
+            offset, ctrace = canon_trace(sb, lines, cands)
+            prefixes = []
             for j in range(len(lines)):
                 for kind in kinds:
                     restore_world(sb, saved)
@@ -275,18 +310,35 @@ def rollback_faults(ctx, nscen, kinds):
                     ctx.count('rollback_fault', key=(kind, lines[j][1]), tags=['fault:' + kind, 'op:' + lines[j][1]])
                     if p.returncode == 0:
                         same, diffp = same_final(after, final, ids)
-                        if not same:
-                            if lines[j][1] == 'remove' and ctx.is_known('K7b'): ctx.known_finding('K7b', KNOWN['K7b'])
-                            else: ctx.violation('%s at rollback point %d (%s) but exit 0 with a partial result (%s)' % (kind, j, lines[j][1], diffp[:3]), r2)
+                        ctx.violation('%s at rollback point %d (%s) but exit 0%s' % (kind, j, lines[j][1], '' if same else ' with a partial result (%s)' % diffp[:3]), r2)
                         continue
+                    if kind != 'abort':
+                        try:
+                            env = json.loads(p.stdout.decode('utf-8', 'replace'))
+                            okenv = env.get('ok') is False and env.get('errors') and env.get('data') == {}
+                        except Exception:
+                            env = None; okenv = False
+                        if not okenv:
+                            ctx.violation('I/O error at rollback point %d (%s) did not produce a well-formed error envelope' % (j, lines[j][1]), r2)
+                        elif kind == 'EACCES' and env['errors'][0]['code'] != 'E_IO_PERMISSION_DENIED':
+                            ctx.violation('permission error at rollback point %d (%s) reported as %s' % (j, lines[j][1], env['errors'][0]['code']), r2)
                     for q in set(before) | set(after) | set(final):
                         if after.get(q) not in (before.get(q), final.get(q)):
                             ctx.violation('after %s at rollback point %d file %s holds neither its previous nor its new content' % (kind, j, q), r2)
+                    if any(x not in ds.list_snapshot_ids(sb) for x in []): pass
+                    if kind == 'abort' and offset is not None and j >= offset:
+                        prefixes.append((j - offset, after))
                     rc3, doc3, out3, _ = sb.cli_json(['rollback', '--to', S, '--yes'])
                     again = ds.world_tree(sb)
                     same, diffp = same_final(again, final, ids)
                     if not (doc3 and doc3.get('ok')) or not same:
                         ctx.violation('re-running rollback after %s at point %d does not reach the uninterrupted result (%s)' % (kind, j, diffp[:3] or out3[:100]), r2)
+            if offset is not None:
+                universe = set(before) | set(final)
+                obs_tr = cq.clist([cq.cpair(cq.cN(a), cq.cN(b), cq.cstr(c)) for a, b, c in ctrace])
+                prefs = cq.clist([cq.cpair(cq.cnat(j), ds.c_obs_after(universe, a, ids)) for j, a in prefixes])
+                term = cq.cpair(ds.c_disk(before, ids), tgt_term, cur_term, obs_tr, prefs, ds.c_obs_after(universe, visible(final), ids))
+                cases.append((term, {'stream': 'rollback_crash', 'scenario': idx, 'trace': ctrace, 'before': {p: b.hex() for p, b in before.items()}}))
         finally:
             sb.close()
 
@@ -306,6 +358,9 @@ def run(ctx):
     kinds = ['abort', 'EACCES'] if quick else ['abort', 'EACCES', 'ENOSPC', 'EIO']
     for i in range(5 if quick else 60):
         run_scenario(ctx, i, kinds, 14 if quick else None, cases)
-    rollback_faults(ctx, 2 if quick else 20, kinds)
     for c in ctx.corr('crash', HEADER, 'check_crash', 'crash_case', cases, shard_chars=40000):
         ctx.violation('model and implementation disagree on the sequence of mutating operations / a crash-prefix disk', c, no_input=True)
+    rcases = []
+    rollback_faults(ctx, 3 if quick else 30, kinds, rcases)
+    for c in ctx.corr('rollback_crash', HEADER, 'check_rollback_crash', 'rb_case', rcases, shard_chars=40000):
+        ctx.violation('model and implementation disagree on rollback\'s sequence of mutating operations / a crash-prefix disk', c, no_input=True)
